@@ -29,13 +29,16 @@ class verb(Command):
     def invoke(self, tex):
         """ Parse for matching delimiters """
         self.ownerDocument.context.push(self)
-        self.parse(tex)
+        # Like LaTeX (\dospecials before \@ifstar), switch to verbatim
+        # category codes before looking at the star and the delimiter, so
+        # that a delimiter such as %, $, ~, & or # is an ordinary character
         self.ownerDocument.context.setVerbatimCatcodes()
+        self.parse(tex)
         # See what the delimiter is
         for endpattern in tex:
             self.delimiter = endpattern
-            if isinstance(endpattern, bgroup):
-                self.delimiter = endpattern = Other('}')
+            if endpattern == '{':
+                self.delimiter = endpattern = type(endpattern)('}')
             break
         tokens = [self, endpattern]
         # Parse until this delimiter is seen again
